@@ -54,7 +54,7 @@ type interpreter struct {
 
 	pendingAbort *pathAbort
 	panicOrigin  *panicInfo
-	envSizes     map[*ssa.Function]int
+	fnInfos      map[*ssa.Function]*fnInfo
 	funcs        map[*ssa.Function]bool
 	nativeCalls  map[string]int64
 	initPkgs     []*ssa.Package
@@ -74,7 +74,8 @@ type frame struct {
 	caller           *frame
 	fn               *ssa.Function
 	block, prevBlock *ssa.BasicBlock
-	env              map[ssa.Value]value // dynamic values of SSA variables
+	env              []value // dynamic values of SSA variables, indexed by info.idx
+	info             *fnInfo
 	locals           []value
 	defers           *deferred
 	result           value
@@ -111,8 +112,8 @@ func (fr *frame) get(key ssa.Value) value {
 		}
 		panic(engineError{"read of global " + key.String() + " of a package whose initialiser is not executed (unmodelled library state)"})
 	}
-	if r, ok := fr.env[key]; ok {
-		return r
+	if k, ok := fr.info.idx[key]; ok {
+		return fr.env[k]
 	}
 	panic(fmt.Sprintf("get: no value for %T: %v", key, key.Name()))
 }
@@ -181,7 +182,7 @@ func visitInstr(fr *frame, instr ssa.Instruction) continuation {
 		// no-op
 
 	case *ssa.UnOp:
-		fr.env[instr] = unop(fr, instr, fr.get(instr.X))
+		fr.set(instr, unop(fr, instr, fr.get(instr.X)))
 
 	case *ssa.BinOp:
 		x, y := fr.get(instr.X), fr.get(instr.Y)
@@ -200,26 +201,26 @@ func visitInstr(fr *frame, instr ssa.Instruction) continuation {
 						_, signed, _ := intInfo(instr.X.Type())
 						q, r := i.divByConst(sx.t, c, signed)
 						if instr.Op == token.QUO {
-							fr.env[instr] = valueOfTerm(q, instr.X.Type())
+							fr.set(instr, valueOfTerm(q, instr.X.Type()))
 						} else {
-							fr.env[instr] = valueOfTerm(r, instr.X.Type())
+							fr.set(instr, valueOfTerm(r, instr.X.Type()))
 						}
 						break
 					}
 				}
 			}
 		}
-		fr.env[instr] = binop(instr.Op, instr.X.Type(), instr.Y.Type(), x, y)
+		fr.set(instr, binop(instr.Op, instr.X.Type(), instr.Y.Type(), x, y))
 
 	case *ssa.Call:
 		fn, args := prepareCall(fr, &instr.Call)
-		fr.env[instr] = call(fr.i, fr, instr.Pos(), fn, args)
+		fr.set(instr, call(fr.i, fr, instr.Pos(), fn, args))
 
 	case *ssa.ChangeInterface:
-		fr.env[instr] = fr.get(instr.X)
+		fr.set(instr, fr.get(instr.X))
 
 	case *ssa.ChangeType:
-		fr.env[instr] = fr.get(instr.X) // (can't fail)
+		fr.set(instr, fr.get(instr.X)) // (can't fail)
 
 	case *ssa.Convert:
 		x := fr.get(instr.X)
@@ -227,19 +228,19 @@ func visitInstr(fr *frame, instr ssa.Instruction) continuation {
 			// []byte/[]rune with symbolic elements converted to a string: concretise
 			x = i.concretizeDeep(x, instr.X.Type(), fr.pos(instr))
 		}
-		fr.env[instr] = conv(instr.Type(), instr.X.Type(), x)
+		fr.set(instr, conv(instr.Type(), instr.X.Type(), x))
 
 	case *ssa.SliceToArrayPointer:
-		fr.env[instr] = sliceToArrayPointer(instr.Type(), instr.X.Type(), fr.get(instr.X))
+		fr.set(instr, sliceToArrayPointer(instr.Type(), instr.X.Type(), fr.get(instr.X)))
 
 	case *ssa.MakeInterface:
-		fr.env[instr] = iface{t: instr.X.Type(), v: fr.get(instr.X)}
+		fr.set(instr, iface{t: instr.X.Type(), v: fr.get(instr.X)})
 
 	case *ssa.Extract:
-		fr.env[instr] = fr.get(instr.Tuple).(tuple)[instr.Index]
+		fr.set(instr, fr.get(instr.Tuple).(tuple)[instr.Index])
 
 	case *ssa.Slice:
-		fr.env[instr] = i.sliceOp(fr, instr)
+		fr.set(instr, i.sliceOp(fr, instr))
 
 	case *ssa.Return:
 		switch len(instr.Results) {
@@ -313,17 +314,17 @@ func visitInstr(fr *frame, instr ssa.Instruction) continuation {
 		i.spawn(fn, args, instr.Pos())
 
 	case *ssa.MakeChan:
-		fr.env[instr] = &vchan{cap: int(i.concretizeInt(fr.get(instr.Size), 0, 1<<20, fr.pos(instr)))}
+		fr.set(instr, &vchan{cap: int(i.concretizeInt(fr.get(instr.Size), 0, 1<<20, fr.pos(instr)))})
 
 	case *ssa.Alloc:
 		var addr *value
 		if instr.Heap {
 			// new
 			addr = new(value)
-			fr.env[instr] = addr
+			fr.set(instr, addr)
 		} else {
 			// local
-			addr = fr.env[instr].(*value)
+			addr = fr.env[fr.info.idx[instr]].(*value)
 		}
 		*addr = zero(mustDeref(instr.Type()))
 
@@ -336,26 +337,26 @@ func visitInstr(fr *frame, instr ssa.Instruction) continuation {
 		slice := make([]value, cp)
 		tElt := instr.Type().Underlying().(*types.Slice).Elem()
 		fillZero(slice, tElt)
-		fr.env[instr] = slice[:ln]
+		fr.set(instr, slice[:ln])
 
 	case *ssa.MakeMap:
-		fr.env[instr] = makeMap(instr.Type().Underlying().(*types.Map).Key(), 0)
+		fr.set(instr, makeMap(instr.Type().Underlying().(*types.Map).Key(), 0))
 
 	case *ssa.Range:
-		fr.env[instr] = rangeIter(i, fr.get(instr.X), instr.X.Type())
+		fr.set(instr, rangeIter(i, fr.get(instr.X), instr.X.Type()))
 
 	case *ssa.Next:
-		fr.env[instr] = fr.get(instr.Iter).(iter).next()
+		fr.set(instr, fr.get(instr.Iter).(iter).next())
 
 	case *ssa.FieldAddr:
 		p := fr.get(instr.X).(*value)
 		if p == nil {
 			panic(targetRuntimeError("invalid memory address or nil pointer dereference"))
 		}
-		fr.env[instr] = &(*p).(structure)[instr.Field]
+		fr.set(instr, &(*p).(structure)[instr.Field])
 
 	case *ssa.Field:
-		fr.env[instr] = fr.get(instr.X).(structure)[instr.Field]
+		fr.set(instr, fr.get(instr.X).(structure)[instr.Field])
 
 	case *ssa.IndexAddr:
 		x := fr.get(instr.X)
@@ -363,14 +364,14 @@ func visitInstr(fr *frame, instr ssa.Instruction) continuation {
 		switch x := x.(type) {
 		case []value:
 			k := i.indexCheck(idx, len(x), fr.pos(instr))
-			fr.env[instr] = &x[k]
+			fr.set(instr, &x[k])
 		case *value: // *array
 			if x == nil {
 				panic(targetRuntimeError("invalid memory address or nil pointer dereference"))
 			}
 			a := (*x).(array)
 			k := i.indexCheck(idx, len(a), fr.pos(instr))
-			fr.env[instr] = &a[k]
+			fr.set(instr, &a[k])
 		default:
 			panic(fmt.Sprintf("unexpected x type in IndexAddr: %T", x))
 		}
@@ -381,9 +382,9 @@ func visitInstr(fr *frame, instr ssa.Instruction) continuation {
 
 		switch x := x.(type) {
 		case array:
-			fr.env[instr] = x[i.indexCheck(idx, len(x), fr.pos(instr))]
+			fr.set(instr, x[i.indexCheck(idx, len(x), fr.pos(instr))])
 		case string:
-			fr.env[instr] = x[i.indexCheck(idx, len(x), fr.pos(instr))]
+			fr.set(instr, x[i.indexCheck(idx, len(x), fr.pos(instr))])
 		default:
 			panic(fmt.Sprintf("unexpected x type in Index: %T", x))
 		}
@@ -391,9 +392,9 @@ func visitInstr(fr *frame, instr ssa.Instruction) continuation {
 	case *ssa.Lookup:
 		x := fr.get(instr.X)
 		if s, ok := x.(string); ok {
-			fr.env[instr] = s[i.indexCheck(fr.get(instr.Index), len(s), fr.pos(instr))]
+			fr.set(instr, s[i.indexCheck(fr.get(instr.Index), len(s), fr.pos(instr))])
 		} else {
-			fr.env[instr] = lookup(instr, x, i.concretizeKey(fr.get(instr.Index)))
+			fr.set(instr, lookup(instr, x, i.concretizeKey(fr.get(instr.Index))))
 		}
 
 	case *ssa.MapUpdate:
@@ -408,20 +409,20 @@ func visitInstr(fr *frame, instr ssa.Instruction) continuation {
 		}
 
 	case *ssa.TypeAssert:
-		fr.env[instr] = typeAssert(fr.i, instr, fr.get(instr.X).(iface))
+		fr.set(instr, typeAssert(fr.i, instr, fr.get(instr.X).(iface)))
 
 	case *ssa.MakeClosure:
 		var bindings []value
 		for _, binding := range instr.Bindings {
 			bindings = append(bindings, fr.get(binding))
 		}
-		fr.env[instr] = &closure{instr.Fn.(*ssa.Function), bindings}
+		fr.set(instr, &closure{instr.Fn.(*ssa.Function), bindings})
 
 	case *ssa.Phi:
 		panic("unreachable") // phis are processed at block entry
 
 	case *ssa.Select:
-		fr.env[instr] = i.selectOp(fr, instr)
+		fr.set(instr, i.selectOp(fr, instr))
 
 	default:
 		panic(engineError{fmt.Sprintf("unexpected instruction: %T", instr)})
@@ -535,18 +536,19 @@ func callSSA(i *interpreter, caller *frame, callpos token.Pos, fn *ssa.Function,
 		panic(engineError{"uninstantiated generic function " + fn.String()})
 	}
 
-	fr.env = make(map[ssa.Value]value, i.envSize(fn))
+	fr.info = i.fnInfoOf(fn)
+	fr.env = make([]value, fr.info.n)
 	fr.block = fn.Blocks[0]
 	fr.locals = make([]value, len(fn.Locals))
 	for i, l := range fn.Locals {
 		fr.locals[i] = zero(mustDeref(l.Type()))
-		fr.env[l] = &fr.locals[i]
+		fr.set(l, &fr.locals[i])
 	}
 	for i, p := range fn.Params {
-		fr.env[p] = args[i]
+		fr.set(p, args[i])
 	}
 	for i, fv := range fn.FreeVars {
-		fr.env[fv] = env[i]
+		fr.set(fv, env[i])
 	}
 	for fr.block != nil {
 		runFrame(fr)
@@ -575,21 +577,43 @@ func (fr *frame) stack() string {
 	return sb.String()
 }
 
-// envSize returns the number of SSA values of fn (to pre-size the environment).
-func (i *interpreter) envSize(fn *ssa.Function) int {
-	if n, ok := i.envSizes[fn]; ok {
-		return n
+// fnInfo numbers the SSA values of a function (slots of the frame environment).
+type fnInfo struct {
+	idx map[ssa.Value]int
+	n   int
+}
+
+func (fr *frame) set(k ssa.Value, v value) { fr.env[fr.info.idx[k]] = v }
+
+func (i *interpreter) fnInfoOf(fn *ssa.Function) *fnInfo {
+	if fi, ok := i.fnInfos[fn]; ok {
+		return fi
 	}
-	n := len(fn.Params) + len(fn.FreeVars) + len(fn.Locals)
+	fi := &fnInfo{idx: map[ssa.Value]int{}}
+	add := func(v ssa.Value) {
+		fi.idx[v] = fi.n
+		fi.n++
+	}
+	for _, p := range fn.Params {
+		add(p)
+	}
+	for _, p := range fn.FreeVars {
+		add(p)
+	}
+	for _, l := range fn.Locals {
+		add(l)
+	}
 	for _, b := range fn.Blocks {
 		for _, in := range b.Instrs {
-			if _, ok := in.(ssa.Value); ok {
-				n++
+			if v, ok := in.(ssa.Value); ok {
+				if _, dup := fi.idx[v]; !dup {
+					add(v)
+				}
 			}
 		}
 	}
-	i.envSizes[fn] = n
-	return n
+	i.fnInfos[fn] = fi
+	return fi
 }
 
 func depth(fr *frame) int {
@@ -686,7 +710,7 @@ func executePhis(fr *frame) []ssa.Instruction {
 			fr.phitemps = append(fr.phitemps, fr.get(phi.Edges[predIndex]))
 		}
 		for i, phi := range phis {
-			fr.env[phi.(*ssa.Phi)] = fr.phitemps[i]
+			fr.set(phi.(*ssa.Phi), fr.phitemps[i])
 		}
 	}
 	return nonPhis
